@@ -48,7 +48,9 @@ the three switches enumerate the same 16 kinds; `Auth.authSpec` renders to the g
 of every handler, the fee payer, `PopulateSpecialMessageFields` and the fields `GetSignBytes` copies
 are pinned to the text the model transcribes; `batch_verifier_verifies_every_lane_member` pins the
 control flow of `BatchVerifier.verifyAll` (no early return; every key-type list of a lane is verified),
-on which the model's having no verification-path dimension rests.
+on which the model's having no verification-path dimension rests; `cacheKey_source`, `cacheKey_injective`
+and `cache_hit_sound` do the same for the signature cache (the key is the full triple, so a hit means this
+very triple was verified).
 
 Not proved here (measured by the correspondence run instead, see `checks/C05.py`): that the hand
 model of the handlers and of the order of checks equals the Go code; anything about the primitives.
@@ -188,6 +190,48 @@ theorem batch_verifier_verifies_every_lane_member :
     Gen.Auth.applyTransactionsFirstPass.contains
       "if _, checkErr := s.CheckTx(tx, \"\", batchVerifier); checkErr != nil { failedCheckTxs[i] = checkErr }" = true := by
   decide
+
+/-! ## the signature cache remembers exactly what was verified -/
+
+/-- `BatchTuple.Key()` is public key ‖ message ‖ signature in full (`Auth.cacheKey`; the driver op
+`cachekey` also compares the two on messages of 0 … 5000 bytes on every run), and `CheckCache` looks up
+and stores exactly that key -/
+theorem cacheKey_source :
+    Gen.Auth.cacheKeySource =
+      "pk := bt.PublicKey.Bytes(); totalLen := len(pk) + len(bt.Message) + len(bt.Signature); b, offset := make([]byte, totalLen), 0; copy(b[offset:], pk); offset += len(pk); copy(b[offset:], bt.Message); offset += len(bt.Message); copy(b[offset:], bt.Signature); return string(b)" ∧
+    Gen.Auth.checkCacheSource =
+      "if DisableCache { return false, func(...){} }; cacheTuple := BatchTuple{PublicKey: pk, Message: msg, Signature: sig}; key := cacheTuple.Key(); addToCache = func(...){SignatureCache.Set(key, []byte{0})}; _, notFoundErr := SignatureCache.Get(key); found = notFoundErr == nil; return" := by
+  decide
+
+/-- the key determines the triple once the lengths of key and signature are fixed (they are, per
+signature scheme: 48/96 BLS, 32/64 ed25519, 33/64 secp256k1, 64/64 eth-secp256k1) -/
+theorem cacheKey_injective (pk pk' m m' sg sg' : Bytes) (hp : pk.length = pk'.length) (hs : sg.length = sg'.length)
+    (h : cacheKey pk m sg = cacheKey pk' m' sg') : pk = pk' ∧ m = m' ∧ sg = sg' := by
+  unfold cacheKey at h
+  rw [List.append_assoc, List.append_assoc] at h
+  obtain ⟨h1, h2⟩ := List.append_inj h hp
+  have hl : (m ++ sg).length = (m' ++ sg').length := by rw [h2]
+  have hm : m.length = m'.length := by simp at hl; omega
+  obtain ⟨h3, h4⟩ := List.append_inj h2 hm
+  exact ⟨h1, h3, h4⟩
+
+/-- Cache soundness: a cache hit means this very (key, message, signature) triple was verified before
+— a message that differs anywhere, or another signature, cannot ride on a remembered verification.
+(Within one scheme; across schemes the unframed concatenation is an idealisation, see checks/C05.py.) -/
+theorem cache_hit_sound (remembered : List (Bytes × Bytes × Bytes)) (pk m sg : Bytes) (lp ls : Nat)
+    (hrem : ∀ t ∈ remembered, t.1.length = lp ∧ t.2.2.length = ls) (hp : pk.length = lp) (hs : sg.length = ls)
+    (h : cacheHit remembered pk m sg = true) : (pk, m, sg) ∈ remembered := by
+  unfold cacheHit at h
+  simp only [List.contains_iff_mem, List.mem_map] at h
+  obtain ⟨⟨pk', m', sg'⟩, hmem, hk⟩ := h
+  obtain ⟨l1, l2⟩ := hrem _ hmem
+  obtain ⟨rfl, rfl, rfl⟩ := cacheKey_injective pk' pk m' m sg' sg (by simpa [hp] using l1) (by simpa [hs] using l2) hk
+  exact hmem
+
+/-- non-vacuity, and what a truncating key would break: same key, same signature, message differing
+only in its tail -/
+example : cacheHit [([1, 2], [7, 7, 7, 8], [5])] [1, 2] [7, 7, 7, 8] [5] = true ∧
+    cacheHit [([1, 2], [7, 7, 7, 8], [5])] [1, 2] [7, 7, 7, 9] [5] = false := by decide
 
 deriving instance DecidableEq for Except
 
